@@ -199,6 +199,13 @@ theorem lintrans_keys_sufficient (n : Nat) (hn : 0 < n) (diags : List Int) (logR
     simp only [reqMany, List.foldl_cons, List.foldl_nil, Nat.ne_of_gt hN, if_false, List.nil_append] at hx
     exact bsgs_keys_sufficient n _ hn hN diags [] x hx
 
+/-- the naive branch on a negative index in sparse packing: `GaloisElements` normalises modulo the number
+    of columns — for 4 columns the index `-3` is advertised as the rotation by `1` (what
+    `MultiplyByDiagMatrix` asks for), not as `5^(-3 mod N/2)`; an instance of `lintrans_keys_sufficient`,
+    probed on the real code as `keys_sufficient_pkg` -/
+example : advertisedRots [-3] 4 (-1) = [1] ∧ advertisedRots [-1, 1, -2] 4 (-1) = [1, 2, 3] ∧
+    reqMany [((allocate [-3] 4 (-1)).1, 4, (allocate [-3] 4 (-1)).2)] = [1] := by decide
+
 /-- `FindBestBSGSRatio` never returns 0 (so a non-negative ratio always selects the BSGS algorithm) -/
 theorem findBestBSGSRatio_pos (diags : List Int) (maxN lr : Nat) : 0 < findBestBSGSRatio diags maxN lr :=
   Lattigo.Model.LinTrans.findBestBSGSRatio_pos diags maxN lr
